@@ -815,6 +815,20 @@ impl<T: Config> UdpProtocol<T> {
         self.pending_checksums.insert(body.frame, body.checksum);
     }
 
+    /// Verification hook: sizes of the internal buffers of this endpoint.
+    #[cfg(feature = "verif-hooks")]
+    pub(crate) fn verif_sizes(&self) -> crate::verif_hooks::EndpointSizes {
+        crate::verif_hooks::EndpointSizes {
+            handles: self.handles.clone(),
+            send_queue: self.send_queue.len(),
+            event_queue: self.event_queue.len(),
+            pending_output: self.pending_output.len(),
+            recv_inputs: self.recv_inputs.len(),
+            pending_checksums: self.pending_checksums.len(),
+            sync_random_requests: self.sync_random_requests.len(),
+        }
+    }
+
     /// Returns the frame of the last received input
     fn last_recv_frame(&self) -> Frame {
         match self.recv_inputs.iter().max_by_key(|&(k, _)| k) {
